@@ -6,6 +6,7 @@ package main
 // well-formed batch.
 
 import (
+	"os"
 	"bytes"
 	"encoding/json"
 	"fmt"
@@ -362,8 +363,8 @@ func runFaultCaseBars(h []Letter, bars []*colarspb.BatchArrowRecords, fc FaultCa
 	}
 	// the next well-formed batch must not crash the consumer either
 	_, _, pan2 := decodeWith(cons, h[len(h)-1].Sig, bars[len(h)-1])
-	if pan2 != "" && !uncheckedIndexing(pan2) {
-		viol = append(viol, "consumer panicked on the well-formed batch that follows the damaged one (not an index into a dictionary that lost entries): "+pan2)
+	if pan2 != "" && (!uncheckedIndexing(pan2) || os.Getenv("STREAMMC_EXEMPT_FOLLOWER_PANICS") == "") {
+		viol = append(viol, "consumer panicked on the well-formed batch that follows the damaged one: "+pan2)
 	} else if pan2 != "" && counters != nil {
 		// Not judged: the property quantifies over prefix + ONE damaged batch.  A
 		// dropped payload leaves its sub-stream without dictionary entries that
